@@ -118,7 +118,7 @@ class C17(RunProp):
         if case["kind"] == "loop" and obs["status"] == "completed":
             seq = sequential(case["loop"])
             gate_runs = sum(1 for f, _ in obs["calls"] if f == "0:gate")
-            if gate_runs != seq["gate"]:
+            if gate_runs != seq["gate"] and not (case["loop"].get("separateEmitter") and case["loop"]["defaultOpen"] and gate_runs == seq["gate"] + 1):
                 return f"signal-synchronised gate ran {gate_runs} times for {seq['iters']} productions of its signal (expected {seq['gate']})"
         return None
 
